@@ -81,6 +81,7 @@ class UnitSpec:
         self.cflags = []
         self.tv = None
         self.native_differential = False
+        self.native_drivers = []
         parse(self, path)
 
 
@@ -166,7 +167,11 @@ def parse(u, path):
             elif kw == 'tv':
                 u.tv = rest
             elif kw == 'native-differential':
-                u.native_differential = rest in ('yes', 'true', 'on')
+                # native-differential yes|always [driver ...]: bounded native run of replay/<driver>.cpp --exhaustive
+                # (yes: thorough tier only; always: both tiers); default driver = the unit's own
+                parts = rest.split()
+                u.native_differential = parts[0] if parts and parts[0] in ('always',) else (parts and parts[0] in ('yes', 'true', 'on'))
+                u.native_drivers = parts[1:]
             elif kw in ('function', 'assume-contract', 'lemma'):
                 m = re.match(r'^(\S+)(?:\s+foreach\s+(\w+)=(.*))?$', rest)
                 if not m and kw == 'assume-contract':
